@@ -160,6 +160,12 @@ class Engine(MatrixTheory, NumpyTheory, Evaluator):
             lv, n = st.heap.fresh_list(t[1], base)
             st.assume(n >= 0)
             return VList(lv.ref, nd=(k == 'arr'))
+        if k == 'block':
+            # a 2-D array seen as a list of opaque rows of one (symbolic) width
+            lv, n_ = st.heap.fresh_list(t[1], base)
+            w_ = z3.Int(fresh_name(base + '.width'))
+            st.assume(z3.And(n_ >= 0, w_ >= 0))
+            return VList(lv.ref, nd=True, width=w_)
         if k == 'pairs':
             keys, kn = st.heap.fresh_list('int', base + '.keys')
             rv, cnt, lens = st.heap.fresh_rag(t[1], base)
@@ -262,6 +268,15 @@ class Engine(MatrixTheory, NumpyTheory, Evaluator):
 
     # ---- calls -------------------------------------------------------------------------------------
     def ev_Call(self, node, st):
+        # tqdm progress objects (drop list, A-LOG): the constructor result is an opaque token, update()/close() are no-ops; the argument
+        # expressions of these calls are not evaluated (assumed effect-free and never raising)
+        if isinstance(node.func, ast.Name) and node.func.id == 'tqdm' and 'tqdm' not in st.env:
+            self.assumed_used.add('A-LOG tqdm progress object (no effect on results)')
+            return VElem(z3.Const(fresh_name('tqdm'), Elem), kind='tqdm')
+        if isinstance(node.func, ast.Attribute) and node.func.attr in ('update', 'close', 'set_description', 'refresh') and isinstance(node.func.value, ast.Name):
+            v_ = st.env.get(node.func.value.id)
+            if isinstance(v_, VElem) and getattr(v_, 'kind', None) == 'tqdm':
+                return VNone()
         # special forms that must see unevaluated arguments
         if isinstance(node.func, ast.Name) and node.func.id not in st.env:
             fn = node.func.id
@@ -506,6 +521,8 @@ class Engine(MatrixTheory, NumpyTheory, Evaluator):
             return isinstance(v, VTuple) and len(v.items) == len(t[1]) and all(self.value_matches(x, y, st) for x, y in zip(v.items, t[1]))
         if k == 'slice':
             return isinstance(v, VSlice) and all(self.value_matches(x, y, st) for x, y in zip((v.start, v.stop, v.step), t[1:]))
+        if k == 'block':
+            return isinstance(v, VList) and v.nd and v.width is not None
         if k == 'assoc':
             return isinstance(v, VAssoc) and v.is_dict
         if k == 'pairs':
@@ -1060,6 +1077,9 @@ class Engine(MatrixTheory, NumpyTheory, Evaluator):
             for m in list(c.modifies) + [g for g in c.ghost_exit if g not in c.modifies]:
                 self.havoc_target(m, st)
             # result
+            if c.on_yield:
+                res = self.generator_summary(c, st, node)
+                return res
             if c.result is None:
                 res = VNone()
             elif c.result_from and 'fields_of' in c.result_from:
@@ -1085,6 +1105,62 @@ class Engine(MatrixTheory, NumpyTheory, Evaluator):
             return res
         finally:
             st.env, st.ghost, st.old = saved_env, saved_ghost, old
+
+    def generator_summary(self, c, st, node):
+        """The sequence of values a contracted generator yields, from its PROVED yield monitor: a list L of n >= 0 tuples and, per ghost
+        variable g of the callee, a sequence G_g[0..n] with G_g[0] = init, and for every i < n: requires(L[i], G[i]) and
+        G_g[i+1] = update_g(L[i], G[i]); at_exit(G[n]).  (st.env holds the callee's parameters; called from _apply_contract.)"""
+        mon = c.on_yield
+        names = list(mon.get('vars', []))
+        types = mon.get('types') or ['int'] * len(names)
+        if any(t != 'int' for t in types):
+            raise Unsupported('generator summary: only integer yield values')
+        self.assumed_used.add('generator summary of %s from its proved yield monitor' % c.key)
+        et = ('tuple', ['int'] * len(names)) if len(names) > 1 else 'int'
+        lst, n = st.heap.fresh_list(et, c.qual.split('.')[-1] + '.yields')
+        st.assume(n >= 0)
+        leaves = st.heap.lists[lst.ref].leaves
+        garr = {g: z3.Array(fresh_name('gen_' + g), z3.IntSort(), z3.IntSort()) for g in c.ghost}
+        for g, e in c.ghost.items():
+            st.assume(garr[g][0] == as_int(self.spec_eval(e, st)))
+        i = z3.Int(fresh_name('y'))
+        rng = z3.And(i >= 0, i < n)
+        saved = dict(st.env)
+        st.pc.append(rng)
+        gpos = len(st.pc) - 1
+        facts = []
+        try:
+            for k_, nm in enumerate(names):
+                st.env[nm] = VInt(leaves[k_][i])
+            for g in c.ghost:
+                st.env[g] = VInt(garr[g][i])
+            st.ghost = dict((g, VInt(garr[g][i])) for g in c.ghost)
+            for lab, e in mon.get('requires', []):
+                facts.append(self.spec_truth(e, st))
+            for g, e in (mon.get('updates') or {}).items():
+                facts.append(garr[g][i + 1] == as_int(self.spec_eval(e, st)))
+            for g in c.ghost:
+                if g not in (mon.get('updates') or {}):
+                    facts.append(garr[g][i + 1] == garr[g][i])
+        finally:
+            del st.pc[gpos]
+            st.env = saved
+        for f_ in facts:
+            t_ = z3.ForAll([i], z3.Implies(rng, f_))
+            try:
+                t_._label = 'theory:generator'
+            except Exception:
+                pass
+            st.assume(t_)
+        # at exit
+        for g in c.ghost:
+            st.env[g] = VInt(garr[g][n])
+        st.ghost = dict((g, VInt(garr[g][n])) for g in c.ghost)
+        for lab, e in c.at_exit:
+            st.assume(self.spec_truth(e, st))
+        for g in c.ghost:
+            st.env.pop(g, None)
+        return VGen(lst)
 
     def rag_row(self, rag, k, st):
         """the k-th array of a list of arrays, as an array value that writes back into the list when mutated in place"""
@@ -1547,8 +1623,11 @@ class Engine(MatrixTheory, NumpyTheory, Evaluator):
                 st.assume(cnt == rc.count)
                 st.assume(z3.ForAll([q], z3.Implies(z3.And(q >= 0, q < cnt), lens[q] >= 0)))
                 st.heap.rags[rg.ref] = st.heap.rags.pop(tmp.ref)
-        # ghost state may be updated by any yield / callback inside the body: havoc all of it
-        for g, cur in list(st.ghost.items()):
+        # ghost state may be updated by any yield / callback inside the body: havoc all of it (a body without a yield and - when the
+        # contract has a callback monitor - without any call cannot touch it)
+        touches = any(isinstance(n_, (ast.Yield, ast.YieldFrom)) for b_ in body for n_ in ast.walk(b_)) or \
+            (bool(self.cur.on_call) and any(isinstance(n_, ast.Call) for b_ in body for n_ in ast.walk(b_)))
+        for g, cur in (list(st.ghost.items()) if touches else []):
             if isinstance(cur, VList):
                 # a ghost trace (list): fresh content of the same element type
                 ce_ = st.heap.lists[cur.ref]
